@@ -105,11 +105,19 @@ def run(ctx) -> None:
     # ... "non-ASCII text is preserved exactly": a file that is not UTF-8 is refused, not read under another encoding and written
     # back as UTF-8 - no `.decode(<other encoding>)` / `encoding=<other>` on the rewrite path
     rw_reach = effects.reachable_functions([f"{e_}.rewrite_files" for e_ in ENGINES] + [f"{e_}.diff" for e_ in ENGINES])
+    n_reads_ = 0
     for fq_ in sorted(rw_reach):
         f_ = prog.function(fq_)
         for c_ in ast.walk(f_.node):
             if not isinstance(c_, ast.Call):
                 continue
+            if isinstance(c_.func, ast.Attribute) and c_.func.attr == "read":
+                n_reads_ += 1
+                lim_ = c_.args[0] if c_.args else _kw(c_, "size")
+                unbounded_ = lim_ is None or (isinstance(lim_, ast.Constant) and lim_.value in (None, -1))
+                ctx.check("R1", unbounded_, f"{fq_} L{c_.lineno}: the file is read to its end", f"{fq_}: a file of the rewrite path is read only up to a limit",
+                          f"`{unparse(c_)[:80]}`: what lies behind the limit is not part of the content that is written back: the tail of a long file is lost", loc=f_.loc(c_),
+                          witness={"file": "a configured file longer than the limit"})
             enc_ = None
             if isinstance(c_.func, ast.Attribute) and c_.func.attr == "decode":
                 enc_ = c_.args[0] if c_.args else _kw(c_, "encoding")
@@ -119,6 +127,7 @@ def run(ctx) -> None:
                 ctx.bad("R1", f"{fq_}: file content is decoded as {const_str(enc_)}", f"`{unparse(c_)[:80]}`: a file that is not UTF-8 is accepted under another encoding and then written as UTF-8: "
                         f"every non-ASCII byte outside the match changes (a `coding:` cookie becomes wrong)", loc=f_.loc(c_), witness={"file": "legacy.py in latin-1 with `©`"},
                         what=f"{fq_}: content is decoded as UTF-8 only")
+    ctx.floor("R1", "whole-file read() sites on the rewrite/diff path", n_reads_, 2)
     ctx.floor("R1", "text open() sites on the rewrite/diff path", n_rw, 4)
     ctx.floor("R1", "text open() sites in config", n_cfg, 3)
 
